@@ -261,6 +261,8 @@ class World:
                     out['ids'].append('')
                     out['alias'].append('')
                     out['vals'].append(enc.enc_value(r, h))
+        # values an op computed with Python's own arithmetic as *inputs* to the specification (oracle inputs)
+        ev['va'].extend(call.pop('_oracle', []))
         ev['out'] = out
         ev['post'] = self.diff_post()
         ev['optsp'] = self.opts()
@@ -1717,6 +1719,39 @@ def _aop(w, c):
 def _aiop(w, c):
     a = T(w, c)
     a = _IOPS[c['sa'][0]](a, pyval(w, c['va'][0]))
+    return a
+
+
+_FOPS = dict(_OPS, truediv=_operator.truediv)
+_FIOPS = dict(_IOPS, truediv=_operator.itruediv)
+
+
+def _float_oracle(w, c):
+    """what Python's float arithmetic gives for op(item, scalar) on every item as read back (IEEE double arithmetic is
+    an input to the specification, not modelled): [0] marks an item on which Python itself raises"""
+    a = T(w, c)
+    y = pyval(w, c['va'][0])
+    res = []
+    for v in a.tolist():
+        try:
+            r = _FOPS[c['sa'][0]](v, y)
+            res.append(enc.enc_value(float(r)) if isinstance(r, (int, float)) and not isinstance(r, bool) else [13])
+        except (ZeroDivisionError, OverflowError, ValueError):
+            res.append([0])
+    c['_oracle'] = res
+
+
+@op('aopf')
+def _aopf(w, c):
+    _float_oracle(w, c)
+    return _FOPS[c['sa'][0]](T(w, c), pyval(w, c['va'][0]))
+
+
+@op('aiopf')
+def _aiopf(w, c):
+    _float_oracle(w, c)
+    a = T(w, c)
+    a = _FIOPS[c['sa'][0]](a, pyval(w, c['va'][0]))
     return a
 
 
